@@ -109,6 +109,8 @@ PROPS = {
     'C05': dict(
         title='Lookup caches are transparent: answers never depend on earlier lookups',
         contracts=['C04_lookup', 'C02_spec', 'C09_registry'], falsifier='C05', modes=['py', 'c'], level='other',
+        cfunctions=['_subcache', '_getcache', '_lookup', '_lookup1', '_adapter_hook', '_lookupAll', '_subscriptions'],
+        creturns={'_subcache': 'borrowed', '_getcache': 'borrowed'},
         only={'C04_lookup': ['adapter.py:AdapterLookupBase._uncached_lookup'],
               'C02_spec': ['interface.py:Specification.changed', 'interface.py:Specification.__setBases'],
               'C09_registry': ['adapter.py:LookupBase.changed', 'adapter.py:BaseAdapterRegistry.changed', 'adapter.py:AdapterRegistry.changed', 'adapter.py:BaseAdapterRegistry.register', 'adapter.py:BaseAdapterRegistry.unregister', 'adapter.py:BaseAdapterRegistry.subscribe', 'adapter.py:BaseAdapterRegistry.unsubscribe']},
@@ -116,7 +118,9 @@ PROPS = {
                    'required specification on every path; __bases__ assignment keeps the subscription invariant and changed() '
                    'notifies every dependent (C02 contracts); every registry mutator either touches nothing or ends by notifying '
                    'the registry; BaseAdapterRegistry.changed bumps the generation and empties the three caches of its lookup object '
-                   '(LookupBase.changed); AdapterRegistry.changed reaches every registered sub-registry. Transparency itself (a cache '
+                   '(LookupBase.changed); AdapterRegistry.changed reaches every registered sub-registry; in the C lookup functions a '
+                   'value computed by a call-out is only stored into a cache dictionary acquired before it (obligation St of the C '
+                   'front end: an answer computed before a re-entrant invalidation never lands in the live cache). Transparency itself (a cache '
                    'entry, once stored, equals the uncached answer) is checked bounded: random interleavings (<= 9 steps) of all entry '
                    'points with every mutation kind, compared with cold registries.',
         level_note='cache-filling paths of LookupBase (lookup/lookup1/adapter_hook/lookupAll/subscriptions) and the C twins are bounded.',
@@ -142,8 +146,11 @@ PROPS = {
     ),
     'C01': dict(
         title='providedBy/implementedBy report exactly the declared and inherited interfaces',
-        contracts=[], falsifier='C01', modes=['py', 'c'], level='other',
-        level_text='Bounded only so far: random declaration histories (<=9 steps) over class DAGs with multiple inheritance, against the ghost-history specification with two-sided bounds; the recorded stale-redundancy defect is announced as KNOWN-FINDING.',
+        contracts=['C02_spec'], falsifier='C01', modes=['py', 'c'], level='other',
+        only={'C02_spec': ['interface.py:Specification.changed', 'interface.py:Specification.__setBases']},
+        level_text='The propagation of a declaration change to every dependent specification (Specification.__setBases keeps the '
+                   'subscription invariant, changed() recomputes and notifies every dependent: C02 contracts) is verified from the real '
+                   'bodies. The declaration functions themselves are bounded only so far: random declaration histories (<=9 steps) over class DAGs with multiple inheritance, against the ghost-history specification with two-sided bounds; the recorded stale-redundancy defect is announced as KNOWN-FINDING.',
         level_note='bounded; two known findings share one region (redundant instance declaration followed by class narrowing)',
         explanation='bounded run-time contract checking of the real code against an executable specification written from the statement; no obligation discharged yet for this property',
     ),
